@@ -188,6 +188,16 @@ def state_prefixes(conf, tier):
     for name in ('nocaps', 'as2_rr', 'mp_only', 'cisco_only', 'rr_no_mp'):
         if of[name] is not None:
             out['established_' + name] = up + [{'k': 'chunk', 'c': 0, 'hex': of[name]}, {'k': 'chunk', 'c': 0, 'hex': KA}]
+    # a second session whose peer advertises OTHER capabilities than the peer of the first one did (the router was replaced
+    # or reconfigured): what a send writes follows the present peer's capabilities only
+    def again(first, second):
+        return up + [{'k': 'chunk', 'c': 0, 'hex': of[first]}, {'k': 'chunk', 'c': 0, 'hex': KA},
+                     {'k': 'chunk', 'c': 0, 'hex': NOTIF}, {'k': 'lost', 'c': 0},
+                     {'k': 'advance', 'dt': idle_ticks}, {'k': 'fire', 't': 'idlehold'},
+                     {'k': 'connok', 'c': 1}, {'k': 'chunk', 'c': 1, 'hex': of[second]}, {'k': 'chunk', 'c': 1, 'hex': KA}]
+    if of['as2_rr'] is not None:
+        out['reestablished_after_cisco_only_as2_rr'] = again('cisco_only', 'as2_rr')
+        out['reestablished_after_as2_rr'] = again('as2_rr', 'std')
     return out
 
 
@@ -324,6 +334,37 @@ def body_variants(rule, r, asn4, n_rand):
 
 
 # ---------------------------------------------------------------------------------------------- expected bytes (oracle)
+def session_caps(pair, before):
+    """(capability codes of the OPEN we wrote, of the OPEN the peer sent) on the connection that was tracked before the
+    request; None when either is missing"""
+    from oracles import parse_open_wire
+    cid = before.get('proto')
+    if cid is None:
+        return None
+    conns = pair.rs.sim.world.connectors
+    if cid >= len(conns):
+        return None
+    ours = [w for w in conns[cid].written if w[18] == 1]
+    theirs = []
+    steps = list(pair.steps)
+    for k in range(len(steps) - 1, -1, -1):
+        if isinstance(steps[k], dict) and steps[k].get('reset'):
+            steps = steps[k + 1:]
+            break
+    for st in steps:
+        ev = st.get('ev') if isinstance(st, dict) else None
+        if ev and ev.get('k') == 'chunk' and ev.get('c') == cid:
+            try:
+                b = bytes.fromhex(ev['hex'])
+            except ValueError:
+                continue
+            if len(b) > 19 and b[:16] == b'\xff' * 16 and b[18] == 1 and not theirs:
+                theirs.append(b)
+    if not ours or not theirs:
+        return None
+    return (set(c for c, _ in parse_open_wire(ours[-1])['caps']), set(c for c, _ in parse_open_wire(theirs[0])['caps']))
+
+
 def expected_send_bytes(pair, req, before):
     """hex of the one message a successful send must have written, or None when this oracle cannot say"""
     rule = req['rule']
@@ -342,8 +383,12 @@ def expected_send_bytes(pair, req, before):
         if attr and 5 not in attr and pair.full['local_as'] == pair.full['remote_as']:
             attr[5] = 100
         msg = {'attr': attr, 'nlri': v.get('nlri') or [], 'withdraw': v.get('withdraw') or []}
-        fp = pair.rs.sim.peering.fsm.protocol
-        widths = [bool(getattr(fp, 'fourbytesas'))] if hasattr(fp, 'fourbytesas') else [False, True]
+        # the AS width of THIS session, read off the two OPENs that crossed the tracked connection (not off the agent's own
+        # idea of it): 4 octets iff both carried capability 65
+        both = session_caps(pair, before)
+        if both is None:
+            return None
+        widths = [65 in both[0] and 65 in both[1]]
         from yabgp.message.update import Update
         outs = []
         for w in widths:
@@ -354,8 +399,11 @@ def expected_send_bytes(pair, req, before):
         return outs or None
     if rule == '/v1/peer/<peer_ip>/send/route-refresh':
         try:
-            remote = json.loads(before['capability'])['remote']
-            ty = 128 if 'cisco_route_refresh' in remote else 5
+            both = session_caps(pair, before)
+            if both is None:
+                return None
+            # the type the present peer's OPEN asked for (Cisco's private type only when it advertised capability 128)
+            ty = 128 if 128 in both[1] else 5
             return [MARK + '0017' + '%02x' % ty + struct.pack('!HBB', v['afi'], v.get('res', 0), v['safi']).hex()]
         except Exception:  # noqa
             return None
@@ -676,7 +724,7 @@ def bodies(res, mdrv, r, tier):
         creds = CREDS[0]
         right = {'k': 'basic', 'user': creds[0], 'password': creds[1]}
         for sname, prefix in prefixes.items():
-            established = sname.startswith('established') or sname == 'reestablished'
+            established = sname.startswith('established') or sname.startswith('reestablished')
             if tier == 'quick' and not established and sname not in ('idle', 'openconfirm', 'stopped'):
                 continue
             asn4 = not (sname.endswith('as2_rr') or sname.endswith('nocaps') or sname.endswith('mp_only')) and \
